@@ -2,7 +2,7 @@
    exactly when triggered; skip propagation; input = merge of the routed data predecessors.
    Only statements: each theorem is proved in Proofs/Dag*.v about the definitions of Model/Graph.v that
    Corr/C02.v evaluates (dag_report_values / dag_report_deps / dag_report_skip / dag_get, run_flat / run). *)
-From Eino Require Import Base.Util Model.Graph Model.DagValidate Model.DagSpec Proofs.DagChan Proofs.DagInv Proofs.DagLoop Proofs.DagTrig Proofs.DagVals Proofs.DagSkip Proofs.DagTrigLoop Proofs.DagDen Proofs.DagDenFun Proofs.DagValidate Proofs.DagFuel Proofs.DagLegacy Proofs.DagExamples.
+From Eino Require Import Base.Util Model.Graph Model.DagValidate Model.DagSpec Proofs.DagChan Proofs.DagInv Proofs.DagLoop Proofs.DagTrig Proofs.DagVals Proofs.DagSkip Proofs.DagTrigLoop Proofs.DagDen Proofs.DagDenFun Proofs.DagProgress Proofs.DagValidate Proofs.DagFuel Proofs.DagLegacy Proofs.DagExamples.
 Open Scope N_scope.
 
 (* ================= channel level (compose/dag.go) ================= *)
@@ -524,6 +524,64 @@ Proof.
   split; [exists 7; left; vm_compute; tauto|].
   split; [vm_compute; reflexivity|]. split; [vm_compute; reflexivity|]. split; [vm_compute; reflexivity|].
   split; [vm_compute; reflexivity|]. split; [vm_compute; reflexivity|]. eexists. vm_compute. reflexivity.
+Qed.
+
+(* ---------------------------------------------------------------------------------------------------
+   PROGRESS (Proofs/DagProgress.v): a run does not stall. For graphs whose control and data dependencies have a
+   topological order (rank), with END not a node key and node bodies / nested graphs that are functions of their
+   input and report an error when they fail (nout n v <> TErr []): in every state the loop reaches, under every
+   schedule, there is a task to submit or to collect, and runner.run never returns "no tasks to execute" — so
+   (with dag_fuel_never_exhausted, dag_result_is_den, dag_failure_is_den) a run ends with den's result, with a
+   failure den computes, or with one of the engine's own errors (merge failure, END skipped, foreign branch end).
+   Proof: in a state with nothing to submit or collect every executed node is resolved; a channel of minimal rank
+   that is neither handed out nor skipped has all predecessors resolved or skipped, so it is triggered, so
+   (dag_runs_iff_triggered) it was handed out after all; hence END is handed out or skipped — but END is never
+   executed in a state the loop continues from, and never skipped (a skipped channel belongs to a real node:
+   reportBranch fails with "unknown node: end" first). *)
+Theorem dag_never_out_of_tasks : forall V St (ops : vops V) g,
+  g_mode g = Dag -> NoDup (map n_key (g_nodes g)) -> api_built g -> find_node g kEND = None ->
+  forall rank : key -> nat, (forall t q, gpred g t q -> (rank q < rank t)%nat) ->
+  forall nout : node -> V -> tres V, (forall n v, nout n v <> TErr []) ->
+  forall x exec sub sched p,
+  (forall i k v s, Forall (fun e : logentry V => fst e <> p) (outcome_log V (fst (sub i (p ++ [k]) v s)))) ->
+  (forall n v s, fst (fst (run_task V St ops exec sub p n v s)) = nout n v) ->
+  forall s0 ls Rv,
+  reach V St ops g exec sub sched p x s0 ls Rv -> ls_next V St ls <> [] \/ ls_running V St ls <> [].
+Proof. exact reach_not_stalled. Qed.
+Print Assumptions dag_never_out_of_tasks.
+
+Theorem dag_run_never_no_tasks : forall V St (ops : vops V) g,
+  g_mode g = Dag -> NoDup (map n_key (g_nodes g)) -> api_built g -> find_node g kEND = None ->
+  forall rank : key -> nat, (forall t q, gpred g t q -> (rank q < rank t)%nat) ->
+  (forall vals, v_merge ops vals <> Err eNoTasks) ->
+  forall nout : node -> V -> tres V, (forall n v, nout n v <> TErr []) ->
+  forall x exec sub sched p,
+  (forall i k v s, Forall (fun e : logentry V => fst e <> p) (outcome_log V (fst (sub i (p ++ [k]) v s)))) ->
+  (forall n v s, fst (fst (run_task V St ops exec sub p n v s)) = nout n v) ->
+  forall s lg s',
+  run_flat V St ops exec sub sched p g x s <> (Fail [mkerr eNoTasks] lg, s').
+Proof. exact run_flat_never_no_tasks. Qed.
+Print Assumptions dag_run_never_no_tasks.
+
+(* its hypothesis on the fan-in holds for the value type of the harness *)
+Theorem tree_merge_never_no_tasks : forall vals, v_merge tree_ops vals <> Err eNoTasks.
+Proof. exact tree_merge_not_notasks. Qed.
+Print Assumptions tree_merge_never_no_tasks.
+
+(* non-vacuity: the hypotheses hold for ex_dag with pure harness lambdas (a nested graph that fails reports an error) *)
+Definition ex_sub1 : nat -> path -> value -> unit -> outcome value * unit := fun _ _ _ s => (Fail [mkerr eUnknownNode] [], s).
+Definition ex_nout1 (n : node) (v : value) : tres value :=
+  fst (fst (run_task value unit tree_ops (tree_exec []) ex_sub1 [] n v tt)).
+Example progress_nonvacuous :
+  find_node ex_dag kEND = None
+  /\ (forall t q, gpred ex_dag t q -> (ex_rank q < ex_rank t)%nat)
+  /\ (forall n v, ex_nout1 n v <> TErr [])
+  /\ (forall n v s, fst (fst (run_task value unit tree_ops (tree_exec []) ex_sub1 [] n v s)) = ex_nout1 n v)
+  /\ (forall i k v s, Forall (fun e : logentry value => fst e <> []) (outcome_log value (fst (ex_sub1 i ([] ++ [k]) v s)))).
+Proof.
+  split; [vm_compute; reflexivity|]. split; [apply rank_ok_sound; vm_compute; reflexivity|]. split.
+  - intros n v. unfold ex_nout1, run_task. destruct (n_kind n); simpl; discriminate.
+  - split; [intros n v []; reflexivity|]. intros i k v s. constructor.
 Qed.
 
 (* ---------------------------------------------------------------------------------------------------
